@@ -229,8 +229,9 @@ def check_limit(acc, ci):
             if math.isnan(D):
                 acc.outcomes['limit-nan(C14)'] += 1
                 continue                     # no duty cycle reaches the limit: C14 judges NaN handling
-            if not (-1 <= D <= 1):
-                continue                     # would be clipped
+            if abs(D) <= chain.i0 / chain.imax * (1 + 1e-9):
+                pass                         # inside the dead zone the law is i = D imax (also checked below)
+            # the documented guarantee does not depend on the proposal being inside [-1, 1] (clipping comes later)
             i = ref.motor_current(chain.Tmax, chain.w0, D, w_m, chain.i0, chain.imax)
             if not si.close(i, ilim, 1e-9, chain.imax):
                 acc.violation('C15/StartLimitCurrent/value', 'proposal makes the motor current law yield exactly the limit', case,
